@@ -53,12 +53,30 @@ def nested_tree(draw, leaves, polytomies=0, max_arity=4):
     return forest[0]
 
 
+def biased_size(draw, lo, hi):
+    """Size in [lo, hi].  Hypothesis over-represents the lower end of small
+    integer ranges (measured: 30-45% of cases at the minimum), so the size is
+    derived from one wide draw: weights grow linearly with the size, and the
+    value still shrinks towards lo."""
+    span = hi - lo + 1
+    total = span * (span + 1) // 2
+    k = draw(st.integers(0, 1_000_003)) % total
+    size = lo
+    acc = 0
+    for i in range(span):
+        acc += i + 1
+        if k < acc:
+            size = lo + i
+            break
+    return size
+
+
 @st.composite
 def trees_and_leaves(draw, max_obj, max_sp, min_obj=1, min_sp=1, obj_poly=0, sp_poly=0):
-    nsp = draw(st.integers(min_sp, max_sp))
+    nsp = biased_size(draw, min_sp, max_sp)
     species = SPECIES_NAMES[:nsp]
     stree = draw(nested_tree(species, polytomies=sp_poly))
-    nobj = draw(st.integers(min_obj, max_obj))
+    nobj = biased_size(draw, min_obj, max_obj)
     los = {}
     for i in range(nobj):
         s = species[draw(st.integers(0, nsp - 1))]
@@ -120,7 +138,7 @@ def leaf_syntenies(draw, leaves, max_fam=4, single_prob=0, allow_inconsistent=Tr
     hidden order or None, consistent flag)."""
     if single_prob and draw(st.integers(0, 99)) < single_prob:
         return {l: ["g0"] for l in leaves}, ["g0"], True
-    nf = draw(st.integers(1, max_fam))
+    nf = biased_size(draw, 1, max_fam)
     fams = [f"g{i}" for i in range(nf)]
     order = draw(st.permutations(fams))
     consistent = True
